@@ -193,6 +193,15 @@ Proof.
 Qed.
 Print Assumptions C11_answer_is_the_tree_answer.
 
+(* to_string / to_pretty_string with no hypothesis at all, for documents without floats (any float printer pf) *)
+Theorem C11_to_string_no_float : forall pf pretty t v, wfb v = true -> no_float v = true -> stands_for t v ->
+  exists r d, to_text_w pf pretty t = Ok r /\ parse_value r = Ok d /\ cmp_value d v = Eq.
+Proof.
+  intros pf pretty t v W Hn S. destruct (to_text_forms_no_float pf pretty t v W Hn S) as (r & E & d & P & C).
+  exists r, d. exact (conj E (conj P C)).
+Qed.
+Print Assumptions C11_to_string_no_float.
+
 (* a text that parses announces the kind of its value by the first byte after what the parser skips (type_of's text
    branch reads nothing else), and its floats are never NaN *)
 Theorem C11_first_value_byte_fixes_the_kind : forall t v, parse_value t = Ok v ->
